@@ -56,8 +56,31 @@ func (s *Stump) del(delHashes []Hash, proof Proof) error {
 	if err != nil {
 		return err
 	}
+	if err := store(map[uint64]Hash{}, *s, delHashes, proof); err != nil {
+		return err
+	}
 	for _, i := range idx {
 		s.Roots[i] = Hash{}
+	}
+	return nil
+}
+
+func positions(n uint64, targets []uint64) []uint64 {
+	out := make([]uint64, 0, len(targets))
+	for _, t := range targets {
+		out = append(out, t^1)
+	}
+	return out
+}
+
+// store runs behind Verify: the computed list bounds the loop, the caller's proof is indexed.
+func store(m map[uint64]Hash, stump Stump, delHashes []Hash, proof Proof) error {
+	pos := positions(stump.NumLeaves, proof.Targets)
+	if len(proof.Proof) < len(pos) {
+		return errors.New("proof too short")
+	}
+	for i, p := range pos {
+		m[p] = proof.Proof[i]
 	}
 	return nil
 }
